@@ -56,6 +56,25 @@ def payload_pair(r, stress):
     return gamma.make_payloads(r)
 
 
+def poison(x):
+    """Modify, in place, every mutable container reachable from x (also through tuples); returns whether anything could be modified."""
+    done = False
+    if isinstance(x, dict):
+        for v in list(x.values()):
+            done = poison(v) or done
+        x["__poison__"] = "changed by the caller after wrapping"
+        done = True
+    elif isinstance(x, list):
+        for v in x:
+            done = poison(v) or done
+        x.append("changed by the caller after wrapping")
+        done = True
+    elif isinstance(x, tuple):
+        for v in x:
+            done = poison(v) or done
+    return done
+
+
 def unserialisable(r, env):
     """A variant of the envelope whose canonical serialisation fails."""
     kind = r.choice(["nested 3000 deep", "a set", "bytes", "keys of mixed types", "an object", "nested 100000 deep in the signatures", "a 5000-digit integer"])
@@ -109,9 +128,14 @@ def run_path(hist, seed, line_key, workdir, stress=False):
         try:
             if a == "wrap":
                 src = copy.deepcopy(vals[ev["p"]])
+                if isinstance(src, list) and r.random() < 0.5:
+                    src = tuple(src)             # a tuple is a supported payload type (it serialises as an array); what it contains stays mutable
                 env = signing.wrap_as_signable(src)
                 if set(env) != {"signatures", "signed"} or env["signatures"] != {} or twin_canon(env["signed"]) != canon[ev["p"]]:
                     fail(i, "wrap_as_signable did not return {'signatures': {}, 'signed': <the payload>}")
+                # the caller goes on using (and changing) what it passed in: the envelope keeps carrying the payload that was wrapped
+                if poison(src) and twin_canon(env["signed"]) != canon[ev["p"]]:
+                    fail(i, "the envelope's payload changed when the caller modified the object it had passed to wrap_as_signable")
             elif a == "sign":
                 k = ev["k"]
                 signing.sign_signable(env, common.PrivateKey.from_bytes(keys.seeds[k]))
